@@ -22,6 +22,11 @@ def is_tail_op(op):
 
 
 def run(F, R, ctx):
+    _run9(F, R, ctx)
+    classification_rule(F, R)
+
+
+def _run9(F, R, ctx):
     R.rule("C09.a", "for every interpreter arm of a tail-class opcode (name contains TAIL, or TCOJMP): no function that "
                     "pushes a StackFrame is reachable from the arm through VmCore methods (depth <= 3), and the arm reaches "
                     "the frame-reuse routine new_handle_tail_call_closure or reuses the frame inline (operand stack drain)")
@@ -202,3 +207,34 @@ def run(F, R, ctx):
                        "frame-pushing path (%s) — one of its outcomes can still reach both, so some calls in tail position "
                        "push a frame (%s)" % (fn.short(), blk.get("line"), lib.short_name(fn.blocks[p]["callee"]), detail),
                        fn.loc(blk.get("line")), sample=True)
+
+
+def classification_rule(F, R):
+    R.rule("C09.e", "tail position alone decides the call kind: in AnalysisPass::visit_list, once a call site has been "
+                    "classified as a tail call (CallKind::TailCall / SelfTailCall assigned), no later assignment turns it back "
+                    "into CallKind::Normal — the only construction of Normal is the sibling branch of the position test. A "
+                    "downgrade by callee kind (a primitive, an unknown global) makes `(apply f args)` or `(eval …)` in tail "
+                    "position push a frame per iteration, since those builtins reuse the frame only for a tail-class opcode")
+    fn = F.one(r"\{impl VisitorMutUnitRef(<'a>)? for AnalysisPass(<'a>)?\}::visit_list$")
+    assigns = {"Normal": [], "TailCall": [], "SelfTailCall": [], "SelfTailCallNoArity": []}
+    for i, b in enumerate(fn.blocks):
+        if b["c"]:
+            continue
+        for e in b["e"]:
+            if e[0] == "kv" and str(e[2]).startswith("variant:CallKind::"):
+                assigns.setdefault(str(e[2]).split("::")[-1], []).append(i)
+            if e[0] == "agg" and e[1] == "CallKind":
+                assigns.setdefault(e[2], []).append(i)
+    tails = [b for k, v in assigns.items() if k != "Normal" for b in v]
+    if not tails or not assigns["Normal"]:
+        raise CheckError("anchor lost: AnalysisPass::visit_list no longer constructs CallKind::TailCall and CallKind::Normal")
+    after_tail = set()
+    for t in tails:
+        after_tail |= fn.reachable_from(fn.succ(t))
+    for k, nb in enumerate(sorted(set(assigns["Normal"]))):
+        R.inst("C09.e", "AnalysisPass::visit_list / CallKind::Normal #%d is not a downgrade of a tail call" % k, nb not in after_tail,
+               "AnalysisPass::visit_list assigns CallKind::Normal (line %s) on a path that has already classified the call as a "
+               "tail call: a call in tail position is compiled as an ordinary, frame-pushing call for reasons other than its "
+               "position (e.g. because the callee is a primitive) — a loop whose tail call goes through apply / eval then "
+               "grows by one frame per iteration" % fn.blocks[nb].get("line"), fn.loc(fn.blocks[nb].get("line")), sample=True)
+    R.floor("C09.e", "constructions of CallKind::Normal in the classifier", len(set(assigns["Normal"])), 1)
